@@ -199,7 +199,9 @@ func (Serializer) Unmarshal(buf []byte, m pilosa.Message) error {
 		if err != nil {
 			return errors.Wrap(err, "unmarshaling QueryResponse")
 		}
-		decodeQueryResponse(msg, mt)
+		if err := decodeQueryResponse(msg, mt); err != nil {
+			return errors.Wrap(err, "decoding QueryResponse")
+		}
 		return nil
 	case *pilosa.ImportRequest:
 		msg := &internal.ImportRequest{}
@@ -1092,7 +1094,7 @@ func decodeBlockDataResponse(pb *internal.BlockDataResponse, m *pilosa.BlockData
 	m.ColumnIDs = pb.ColumnIDs
 }
 
-func decodeQueryResponse(pb *internal.QueryResponse, m *pilosa.QueryResponse) {
+func decodeQueryResponse(pb *internal.QueryResponse, m *pilosa.QueryResponse) error {
 	m.ColumnAttrSets = make([]*pilosa.ColumnAttrSet, len(pb.ColumnAttrSets))
 	decodeColumnAttrSets(pb.ColumnAttrSets, m.ColumnAttrSets)
 	if pb.Err == "" {
@@ -1101,7 +1103,7 @@ func decodeQueryResponse(pb *internal.QueryResponse, m *pilosa.QueryResponse) {
 		m.Err = errors.New(pb.Err)
 	}
 	m.Results = make([]interface{}, len(pb.Results))
-	decodeQueryResults(pb.Results, m.Results)
+	return decodeQueryResults(pb.Results, m.Results)
 }
 
 func decodeColumnAttrSets(pb []*internal.ColumnAttrSet, m []*pilosa.ColumnAttrSet) {
@@ -1121,10 +1123,15 @@ func decodeColumnAttrSet(pb *internal.ColumnAttrSet, m *pilosa.ColumnAttrSet) {
 	m.Attrs = decodeAttrs(pb.Attrs)
 }
 
-func decodeQueryResults(pb []*internal.QueryResult, m []interface{}) {
+func decodeQueryResults(pb []*internal.QueryResult, m []interface{}) error {
 	for i := range pb {
-		m[i] = decodeQueryResult(pb[i])
+		v, err := decodeQueryResult(pb[i])
+		if err != nil {
+			return err
+		}
+		m[i] = v
 	}
+	return nil
 }
 
 func decodeTranslateKeysRequest(pb *internal.TranslateKeysRequest, m *pilosa.TranslateKeysRequest) {
@@ -1151,30 +1158,45 @@ const (
 	queryResultTypePair
 )
 
-func decodeQueryResult(pb *internal.QueryResult) interface{} {
+// decodeQueryResult converts a result from its internal representation. The
+// payload may come from anywhere: a result of an unknown kind, or one whose
+// kind announces a part that is not there, is an error.
+func decodeQueryResult(pb *internal.QueryResult) (interface{}, error) {
+	if pb == nil {
+		return nil, nil
+	}
 	switch pb.Type {
 	case queryResultTypeRow:
-		return decodeRow(pb.Row)
+		return decodeRow(pb.Row), nil
 	case queryResultTypePairs:
-		return decodePairs(pb.Pairs)
+		return decodePairs(pb.Pairs), nil
 	case queryResultTypeValCount:
-		return decodeValCount(pb.ValCount)
+		if pb.ValCount == nil {
+			return nil, errors.New("query result: missing ValCount")
+		}
+		return decodeValCount(pb.ValCount), nil
 	case queryResultTypeUint64:
-		return pb.N
+		return pb.N, nil
 	case queryResultTypeBool:
-		return pb.Changed
+		return pb.Changed, nil
 	case queryResultTypeNil:
-		return nil
+		return nil, nil
 	case queryResultTypeRowIDs:
-		return pilosa.RowIDs(pb.RowIDs)
+		return pilosa.RowIDs(pb.RowIDs), nil
 	case queryResultTypeRowIdentifiers:
-		return decodeRowIdentifiers(pb.RowIdentifiers)
+		if pb.RowIdentifiers == nil {
+			return nil, errors.New("query result: missing RowIdentifiers")
+		}
+		return decodeRowIdentifiers(pb.RowIdentifiers), nil
 	case queryResultTypeGroupCounts:
-		return decodeGroupCounts(pb.GroupCounts)
+		return decodeGroupCounts(pb.GroupCounts), nil
 	case queryResultTypePair:
-		return decodePair(pb.Pairs[0])
+		if len(pb.Pairs) == 0 || pb.Pairs[0] == nil {
+			return nil, errors.New("query result: missing Pair")
+		}
+		return decodePair(pb.Pairs[0]), nil
 	}
-	panic(fmt.Sprintf("unknown type: %d", pb.Type))
+	return nil, fmt.Errorf("query result: unknown type: %d", pb.Type)
 }
 
 // DecodeRow converts r from its internal representation.
